@@ -102,9 +102,9 @@ CHECKS = {
         note=TRUST + "Components above 8 stems are outside the property's quantifier and are not generated.",
         ref="3 C16"),
     "C19": dict(
-        technique="exhaustive enumeration of all labels up to length 5/6 over the FR3D alphabet against a three-valued reference classifier + Hypothesis-generated listings and DSSR documents against a line-by-line / entry-by-entry reference import",
+        technique="exhaustive enumeration of all labels up to length 5/6 over the FR3D alphabet against a three-valued reference classifier + Hypothesis-generated listings and DSSR documents against a line-by-line / entry-by-entry reference import + atheris (libFuzzer) coverage-guided fuzzing of the listing import with the oracle inside the target",
         text="Generated-input search: the label space over the 19-symbol FR3D alphabet is enumerated completely up to length 5 (2.6M, quick) or 6 (49M, thorough) and every classification compared with a reference written from the statement (open cases accept either reading); generated listings mix valid lines, near misses and garbage and must import without raising, one interaction per line with two well-formed unit ids, exact identities, correct list and class, file order; generated single-/multi-model DSSR documents must keep exactly the resolvable valid pairs and consecutive resolvable stack members.",
-        note=TRUST + "Python-int leniency in unit-id numbers is kept out of the generator. An atheris byte-level tier is not registered (the grammar is small text; Hypothesis grammars reach the logic directly).",
+        note=TRUST + "Python-int leniency in unit-id numbers is kept out of the generator. The atheris tier (empty and seeded corpus) needs the atheris wheel installed by setup.sh into /verif/.deps; if absent the tier is skipped with a note.",
         ref="3 C19"),
     "C20": dict(
         technique="Hypothesis mmCIF documents written by the harness + corpus files, before/after comparison through an independent CIF tokenizer; CLI run in-process and compared byte-wise with the library result",
